@@ -18,6 +18,11 @@ import (
 // EnforceUTF8 reports whether to enforce strict UTF-8 validation.
 func EnforceUTF8(fd protoreflect.FieldDescriptor) bool {
 	if flags.ProtoLegacy || fd.Syntax() == protoreflect.Editions {
+		if xtd, ok := fd.(protoreflect.ExtensionTypeDescriptor); ok {
+			// The method, if any, is on the descriptor that the
+			// extension type wraps.
+			fd = xtd.Descriptor()
+		}
 		if fd, ok := fd.(interface{ EnforceUTF8() bool }); ok {
 			return fd.EnforceUTF8()
 		}
